@@ -60,9 +60,9 @@ func main() {
 	h := &harness{
 		cover: newPairCover(),
 		drv:   drv,
-		tieC:  res.Tie("coll-stream", "K1", "random write histories on a Collection (Add/Update/Delete, successful and failing, every write option, with/without write time, id interceptor, generated ids, fixed/ticking clock, empty/one/many initial records) with backpressured Pull subscribers opened at random points (read mask, updates-only; resource equivalence none/equal/sameA); compared: every seed and every delivery after every write. distinct = distinct (config, op, subscriptions, answer)"),
+		tieC:  res.Tie("coll-stream", "K1", "random write histories on a Collection (Add/Update/Delete, successful and failing, every write option, with/without write time, id interceptor, generated ids, fixed/ticking clock, empty/one/many initial records) with backpressured Pull subscribers opened at random points (read mask incl. nested paths next to / without their parent, updates-only; resource equivalence given as an ordered option LIST over equal/sameA/nil: set, cleared, replaced); compared: every seed and every delivery after every write. distinct = distinct (config, op, subscriptions, answer)"),
 		tieV:  res.Tie("value-stream", "K1", "the same for Value.Set / Value.Pull (with/without initial value)"),
-		tieS:  res.Tie("small-scope", "K2", "ALL write histories up to the stated length over ids {a,b} (add/update/create-update/delete/failing-precondition) x every subscription point x {plain, updates-only, read mask} subscribers (opened together when there is no equivalence) x equivalence {none, equal}; distinct = distinct scripts"),
+		tieS:  res.Tie("small-scope", "K2", "ALL write histories up to the stated length over ids {a,b} (add/update/create-update/delete/failing-precondition) x every subscription point x {plain, updates-only, read mask} subscribers (opened together when there is no equivalence; the masked one with a NESTED mask: a message field and a path inside it) x equivalence {none, equal}, and for subscribers opened before the first write also a resource whose option list is [equal, WithEquivalence(nil)]; distinct = distinct scripts"),
 		tieR:  res.Tie("subscribe-during-write", "K4", "a subscriber opens WHILE one write is in flight, steered through the yield points: (a) subscriber parked at {value,coll}.onUpdate.beforeListen (between its snapshot and its bus registration) while the write runs - compared: whether the write is blocked on the resource lock (decided from the goroutine's wait reason) or finishes, the seed, every delivery; (b) write parked at value.set.beforeSend / coll.update.beforeSend (committed, not published) while the subscriber opens. ALL (initial contents, prefix write, write in flight) over the small alphabet, each followed by three follow-up writes, x both kinds x {plain, updates-only, read mask} x equivalence {none, equal}, Collection and Value; (c) write parked inside Bus.Send right after its snapshot of the listeners (bus.send.afterSnapshot) while the subscriber opens, the snapshot holding {no, a cancelled, a cancelled and a live, a live and a cancelled} listener: the new subscriber is seeded with the write, is not served by that Send, survives its garbage collection and receives every follow-up write; (d) a Delete parked right after its first read (coll.delete.afterRead) while another write of the same or another id runs to completion: ALL (initial contents, prefix write, Delete options {none, allow-missing, expected value, expected check}, overtaking write) - compared: both answers and every delivery (the REMOVE must carry the item actually removed); the random K1 histories contain all four kinds of scenario too. distinct = distinct scripts"),
 		tieP:  res.Tie("pullid-scope", "K2", "ALL write histories up to the stated length over {add a, create-update a, masked update of a with write time, update of a to a message whose `a` is 0, delete a, add b} x every subscription point x a PullID(a) subscriber {plain, read mask} x resource equivalence {none, equal, sameA}: the item's seed value flagged seed and last-seed, other ids skipped, the changes of the id the equivalence does not relate forwarded as values, the stream ended by exactly the first delivered REMOVE (a REMOVE the equivalence relates to `no item` is suppressed by the inner Pull and the stream goes on); distinct = distinct scripts"),
 		tieH:  res.Tie("stalled-subscriber", "K4", "Collection: a backpressured Collection.Pull subscriber whose consumer stops receiving (hold): its forwarder takes one change, the next Update / Add / Delete (stallw) waits at that listener - there is no deadline - until the consumer receives again after 5.6 s; healthy subscribers registered before / after the held one (plain, read masks incl. nested, updates-only), the waiting write an update / a create / a delete; compared: the write's answer (no error), what the resumed subscriber was owed, everybody's delivery of the waiting write and of the writes after it. Value: a backpressured Value.Pull subscriber whose consumer stops receiving (hold) while the writer goes on: its forwarder takes one change and blocks, the next Set that announces a change waits the full 5 s of Value.set's send deadline on that listener and gives up - ALL listed layouts of healthy subscribers registered before / after the stalled one (plain, read mask, updates-only; with/without initial value; one or two held subscribers; hold before the first write or after one) x the write sequence (a Set the forwarder takes, a Set that finds it stalled, resume, further Sets). Each script runs in its own child process of the harness (the 5 s wait overlaps with the other families); compared: every answer (value and error of each Set, who was handed which event, what the resumed subscriber receives). distinct = distinct scripts"),
@@ -1104,6 +1104,7 @@ func fixedScripts() []Script {
 // the resource's equivalence options, in the order they are passed (the last one decides; "nil" =
 // WithEquivalence(nil): set and cleared again, cleared and set, replaced)
 var eqvPool = []string{"", "", "", "equal", "sameA", "equal,nil", "sameA,equal,nil", "nil", "nil,sameA", "equal,sameA", "sameA,nil,equal"}
+
 // read masks include NESTED shapes: a message field together with a path inside it (names what the parent
 // names), paths inside only, inner path before its parent
 var subOptPool = [][]string{nil, nil, {"uo"}, {"rm=a"}, {"rm=s,c"}, {"rm=0"}, {"uo", "rm=a"}, {"rm=f,fc"}, {"rm=fd,a,f"}, {"rm=fc"},
@@ -1408,8 +1409,12 @@ func (h *harness) smallScope(maxLen int) {
 				}
 				full = append(full, ops[p:]...)
 				h.runScript(Script{Cfg: Cfg{Kind: "coll", Tick: 1}, Ops: full}, h.tieS)
-				// ... and the same on a resource whose option list switched an equivalence on and off again
-				h.runScript(Script{Cfg: Cfg{Kind: "coll", Tick: 1, Eqv: "equal,nil"}, Ops: full}, h.tieS)
+				// ... and, for subscribers that watch the whole history, the same on a resource whose option
+				// list switched an equivalence on and off again (the list is resolved when the resource is
+				// built: the subscription point does not matter to it)
+				if p == 0 {
+					h.runScript(Script{Cfg: Cfg{Kind: "coll", Tick: 1, Eqv: "equal,nil"}, Ops: full}, h.tieS)
+				}
 				for _, so := range subOpts {
 					full = append([]Op(nil), ops[:p]...)
 					full = append(full, Op{Op: "sub", Opts: append([]string{"name=k"}, so...)})
